@@ -51,7 +51,7 @@ class _StripFloatConversions(ast.NodeTransformer):
         d = dotted(node.func) or ""
         if d in ("np.asarray", "np.array", "np.asanyarray", "np.ascontiguousarray", "numpy.asarray", "numpy.array") and len(node.args) == 1:
             kws = {k.arg: k.value for k in node.keywords}
-            if set(kws) <= {"dtype"} and ("dtype" not in kws or src(kws["dtype"]) in _FLOATS):
+            if set(kws) == {"dtype"} and src(kws["dtype"]) in _FLOATS:
                 return node.args[0]
         if isinstance(node.func, ast.Attribute) and node.func.attr == "astype" and len(node.args) == 1 and src(node.args[0]) in _FLOATS:
             return node.func.value
